@@ -20,7 +20,8 @@ Open Scope list_scope.
 Inductive leaf := Plain (c : N) | Redacted | Enc (k : N) (l : leaf) | Hmac (k : N) (l : leaf) | Opaque.
 Inductive lkind := LStr | LBytes | LWStr | LWBytes.       (* string, []byte, wrapperspb.StringValue, wrapperspb.BytesValue *)
 Definition tagT := option string.                         (* text of the `class` struct tag; None = no tag *)
-Inductive tkey := TKey (k : N) | TNested (k1 k2 : N).     (* PointerTag.Pointer of a taggable map: "/k" | "/k1/k2" *)
+Inductive tkey := TPath (p : list N).                     (* PointerTag.Pointer of a taggable map: "/k", "/k1/k2", "/k1/k2/k3", ... *)
+Definition TKey (k : N) : tkey := TPath [k].
 Definition mtag := (option tkey * string)%type.           (* (pointer; None = does not parse, "classification,filter") *)
 Definition stag := (option (N * N) * string)%type.        (* taggable struct: pointer "/Field/key" *)
 
@@ -61,9 +62,10 @@ Definition leaf_of (x : v) : leaf := match x with VLeaf _ l => l | _ => Opaque e
 Definition deref (x : v) : v := match x with VPtr (Some y) => y | _ => x end.
 
 Definition key_tags (k : N) (mt : list mtag) : list string :=
-  flat_map (fun t => match fst t with Some (TKey k') => if N.eqb k k' then [snd t] else [] | _ => [] end) mt.
-Definition nested_tags (k : N) (mt : list mtag) : list (N * string) :=
-  flat_map (fun t => match fst t with Some (TNested k1 k2) => if N.eqb k k1 then [(k2, snd t)] else [] | _ => [] end) mt.
+  flat_map (fun t => match fst t with Some (TPath [k']) => if N.eqb k k' then [snd t] else [] | _ => [] end) mt.
+(* the pointers that go THROUGH key k, with what remains of them below k *)
+Definition nested_tags (k : N) (mt : list mtag) : list mtag :=
+  flat_map (fun t => match fst t with Some (TPath (k1 :: k2 :: r)) => if N.eqb k k1 then [(Some (TPath (k2 :: r)), snd t)] else [] | _ => [] end) mt.
 Definition malformed {A} (ts : list (option A * string)) : bool :=
   existsb (fun t => match fst t with None => true | Some _ => false end) ts.
 Definition field_mtags (nm : N) (ts : list stag) : list mtag :=
@@ -127,7 +129,7 @@ Definition struct_ign (cx : ctx) (tg : option (list stag)) : bool :=
 Definition entry_ctx (k : N) (mt : list mtag) : ctx :=
   match nested_tags k mt with
   | [] => CMapVal
-  | nt => CField true true None (map (fun kt : N * string => (Some (TKey (fst kt)), snd kt)) nt)
+  | nt => CField true true None nt
   end.
 (* pointerstructure cannot walk through a value that is no container: "invalid value kind" *)
 Definition nested_bad (k : N) (mt : list mtag) (y : v) : bool :=
